@@ -63,6 +63,11 @@ impl Generator {
     /// # Returns
     /// the mutated value, or the original if no mutation applied.
     pub(super) fn mutate_int(&self, value: i32, source: &mut GenerationSource) -> i32 {
+        #[cfg(feature = "verif-hooks")]
+        crate::verif::emit(|| crate::verif::Event::MutSite {
+            kind: crate::verif::ValueKind::Int,
+            input: crate::verif::bytes_of_i32(value),
+        });
         if self.mutators.is_empty() {
             return value;
         }
@@ -70,10 +75,20 @@ impl Generator {
         let mut result = value;
         for mutator in &self.mutators {
             if let Some(mutated) = mutator.mutate_int(result, source, self.mutation_rate) {
+                #[cfg(feature = "verif-hooks")]
+                crate::verif::emit(|| crate::verif::Event::MutFired {
+                    kind: crate::verif::ValueKind::Int,
+                    mutator: mutator.name().to_string(),
+                });
                 result = mutated;
                 break; // Apply only one mutation
             }
         }
+        #[cfg(feature = "verif-hooks")]
+        crate::verif::emit(|| crate::verif::Event::MutDone {
+            kind: crate::verif::ValueKind::Int,
+            output: crate::verif::bytes_of_i32(result),
+        });
         result
     }
 
@@ -89,6 +104,11 @@ impl Generator {
     /// # Returns
     /// the mutated value, or the original if no mutation applied.
     pub(super) fn _mutate_long(&self, value: i64, source: &mut GenerationSource) -> i64 {
+        #[cfg(feature = "verif-hooks")]
+        crate::verif::emit(|| crate::verif::Event::MutSite {
+            kind: crate::verif::ValueKind::Long,
+            input: crate::verif::bytes_of_i64(value),
+        });
         // unused right now, keeping around for completeness/future use
         if self.mutators.is_empty() {
             return value;
@@ -97,10 +117,20 @@ impl Generator {
         let mut result = value;
         for mutator in &self.mutators {
             if let Some(mutated) = mutator.mutate_long(result, source, self.mutation_rate) {
+                #[cfg(feature = "verif-hooks")]
+                crate::verif::emit(|| crate::verif::Event::MutFired {
+                    kind: crate::verif::ValueKind::Long,
+                    mutator: mutator.name().to_string(),
+                });
                 result = mutated;
                 break;
             }
         }
+        #[cfg(feature = "verif-hooks")]
+        crate::verif::emit(|| crate::verif::Event::MutDone {
+            kind: crate::verif::ValueKind::Long,
+            output: crate::verif::bytes_of_i64(result),
+        });
         result
     }
     /// apply mutations to a float value.
@@ -116,6 +146,11 @@ impl Generator {
     /// # Returns
     /// the mutated value, or the original if no mutation applied.
     pub(super) fn mutate_float(&self, value: f64, source: &mut GenerationSource) -> f64 {
+        #[cfg(feature = "verif-hooks")]
+        crate::verif::emit(|| crate::verif::Event::MutSite {
+            kind: crate::verif::ValueKind::Float,
+            input: crate::verif::bytes_of_f64(value),
+        });
         if self.mutators.is_empty() {
             return value;
         }
@@ -123,10 +158,20 @@ impl Generator {
         let mut result = value;
         for mutator in &self.mutators {
             if let Some(mutated) = mutator.mutate_float(result, source, self.mutation_rate) {
+                #[cfg(feature = "verif-hooks")]
+                crate::verif::emit(|| crate::verif::Event::MutFired {
+                    kind: crate::verif::ValueKind::Float,
+                    mutator: mutator.name().to_string(),
+                });
                 result = mutated;
                 break;
             }
         }
+        #[cfg(feature = "verif-hooks")]
+        crate::verif::emit(|| crate::verif::Event::MutDone {
+            kind: crate::verif::ValueKind::Float,
+            output: crate::verif::bytes_of_f64(result),
+        });
         result
     }
 
@@ -143,6 +188,11 @@ impl Generator {
     /// # Returns
     /// the mutated string, or the original if no mutation applied.
     pub(super) fn mutate_string(&self, value: String, source: &mut GenerationSource) -> String {
+        #[cfg(feature = "verif-hooks")]
+        crate::verif::emit(|| crate::verif::Event::MutSite {
+            kind: crate::verif::ValueKind::Str,
+            input: value.as_bytes().to_vec(),
+        });
         if self.mutators.is_empty() {
             return value;
         }
@@ -151,10 +201,20 @@ impl Generator {
         for mutator in &self.mutators {
             if let Some(mutated) = mutator.mutate_string(result.clone(), source, self.mutation_rate)
             {
+                #[cfg(feature = "verif-hooks")]
+                crate::verif::emit(|| crate::verif::Event::MutFired {
+                    kind: crate::verif::ValueKind::Str,
+                    mutator: mutator.name().to_string(),
+                });
                 result = mutated;
                 break;
             }
         }
+        #[cfg(feature = "verif-hooks")]
+        crate::verif::emit(|| crate::verif::Event::MutDone {
+            kind: crate::verif::ValueKind::Str,
+            output: result.as_bytes().to_vec(),
+        });
         result
     }
 
@@ -171,6 +231,11 @@ impl Generator {
     /// # Returns
     /// the mutated bytes, or the original if no mutation applied.
     pub(super) fn mutate_bytes(&self, value: Vec<u8>, source: &mut GenerationSource) -> Vec<u8> {
+        #[cfg(feature = "verif-hooks")]
+        crate::verif::emit(|| crate::verif::Event::MutSite {
+            kind: crate::verif::ValueKind::Bytes,
+            input: value.clone(),
+        });
         if self.mutators.is_empty() {
             return value;
         }
@@ -179,10 +244,20 @@ impl Generator {
         for mutator in &self.mutators {
             if let Some(mutated) = mutator.mutate_bytes(result.clone(), source, self.mutation_rate)
             {
+                #[cfg(feature = "verif-hooks")]
+                crate::verif::emit(|| crate::verif::Event::MutFired {
+                    kind: crate::verif::ValueKind::Bytes,
+                    mutator: mutator.name().to_string(),
+                });
                 result = mutated;
                 break;
             }
         }
+        #[cfg(feature = "verif-hooks")]
+        crate::verif::emit(|| crate::verif::Event::MutDone {
+            kind: crate::verif::ValueKind::Bytes,
+            output: result.clone(),
+        });
         result
     }
 
@@ -199,6 +274,11 @@ impl Generator {
     /// # Returns
     /// the mutated index, or the original if no mutation applied.
     pub(super) fn mutate_memo_index(&self, index: usize, source: &mut GenerationSource) -> usize {
+        #[cfg(feature = "verif-hooks")]
+        crate::verif::emit(|| crate::verif::Event::MutSite {
+            kind: crate::verif::ValueKind::MemoIndex,
+            input: crate::verif::bytes_of_usize(index),
+        });
         if self.mutators.is_empty() {
             return index;
         }
@@ -206,10 +286,20 @@ impl Generator {
         let mut result = index;
         for mutator in &self.mutators {
             if let Some(mutated) = mutator.mutate_memo_index(result, source, self.mutation_rate) {
+                #[cfg(feature = "verif-hooks")]
+                crate::verif::emit(|| crate::verif::Event::MutFired {
+                    kind: crate::verif::ValueKind::MemoIndex,
+                    mutator: mutator.name().to_string(),
+                });
                 result = mutated;
                 break;
             }
         }
+        #[cfg(feature = "verif-hooks")]
+        crate::verif::emit(|| crate::verif::Event::MutDone {
+            kind: crate::verif::ValueKind::MemoIndex,
+            output: crate::verif::bytes_of_usize(result),
+        });
         result
     }
 
@@ -274,9 +364,27 @@ impl Generator {
             snapshot.memo_delta.push(idx);
         }
 
+        #[cfg(feature = "verif-hooks")]
+        let __verif_before = if crate::verif::active() {
+            Some(self.output.clone())
+        } else {
+            None
+        };
+
         // Let each mutator post-process
         for mutator in &self.mutators {
             mutator.post_process(&snapshot, &mut self.output, source, self.mutation_rate);
+        }
+
+        #[cfg(feature = "verif-hooks")]
+        if let Some(before) = __verif_before {
+            if before != self.output {
+                crate::verif::emit(|| crate::verif::Event::Rewrite {
+                    at: snapshot.output_len,
+                    old_len: before.len(),
+                    new_len: self.output.len(),
+                });
+            }
         }
     }
 }
